@@ -116,6 +116,18 @@ fn load_known(path: &str) -> Vec<Known> {
     out
 }
 
+/// finding kinds that count for a property's verdict (monitors of other properties also run in shared scenarios)
+fn accept_prefixes(prop: &str) -> Vec<&str> {
+    match prop {
+        "C10" => vec!["C10", "C07"],
+        "C08" => vec!["C08", "C01", "C02"],
+        "C12" => vec!["C12", "C01"],
+        "C07" => vec!["C07", "C01"],
+        "C04" => vec!["C04", "C14/panic", "C15/panic", "C16/panic", "C20/panic", "C12/panic"],
+        p => vec![p],
+    }
+}
+
 fn main() {
     let args: Vec<String> = std::env::args().collect();
     if args.len() < 2 {
@@ -164,14 +176,14 @@ fn main() {
     let mut reports: Vec<Report> = vec![];
     let mut tool_errors: Vec<String> = vec![];
     for (k, scn) in scns.iter().enumerate() {
-        if std::env::var("SYMX_STOP_ON_VIOLATION").is_ok() && reports.iter().any(|r| r.findings.iter().any(|f| !known.iter().any(|k| k.property == prop && k.kind == f.kind))) {
+        if std::env::var("SYMX_STOP_ON_VIOLATION").is_ok() && reports.iter().any(|r| r.findings.iter().any(|f| accept_prefixes(prop.as_str()).iter().any(|a| f.kind.starts_with(a)) && !known.iter().any(|k| k.property == prop && k.kind == f.kind))) {
             break;
         }
         // remaining budget split evenly over the remaining scenarios
         let left = budget.saturating_sub(start.elapsed().as_secs());
         // a scenario may use up to three times its fair share of what is left (at least 20 s)
         let share = (3 * left / (n_scn - k as u64)).max(20).min(left.max(5));
-        let cfg = Config { threads, max_paths: u64::MAX, deadline: Duration::from_secs(share), seed, cross_every: if tier == Tier::Quick { 50 } else { 10 }, split_target: threads * 12, known_kinds: known.iter().filter(|k| k.property == prop).map(|k| k.kind.clone()).collect() };
+        let cfg = Config { threads, max_paths: u64::MAX, deadline: Duration::from_secs(share), seed, cross_every: if tier == Tier::Quick { 50 } else { 10 }, split_target: threads * 12, known_kinds: known.iter().filter(|k| k.property == prop).map(|k| k.kind.clone()).collect(), accept: accept_prefixes(prop.as_str()).iter().map(|s| s.to_string()).collect() };
         let r = std::panic::catch_unwind(std::panic::AssertUnwindSafe(|| exec::explore(&**scn, &cfg)));
         match r {
             Ok(rep) => {
@@ -255,14 +267,7 @@ fn main() {
     let mut new_violations = 0;
     let mut known_hits: Vec<Value> = vec![];
     let mut lines: Vec<String> = vec![];
-    let accept: Vec<&str> = match prop.as_str() {
-        "C10" => vec!["C10", "C07"],
-        "C08" => vec!["C08", "C01", "C02"],
-        "C12" => vec!["C12", "C01"],
-        "C07" => vec!["C07", "C01"],
-        "C04" => vec!["C04", "C14/panic", "C15/panic", "C16/panic", "C20/panic", "C12/panic"],
-        p => vec![p],
-    };
+    let accept: Vec<&str> = accept_prefixes(prop.as_str());
     for r in &reports {
         for f in &r.findings {
             if !accept.iter().any(|a| f.kind.starts_with(a)) {
